@@ -25,6 +25,12 @@ Fixpoint decode_entries (n : nat) (payload : list Z) : option (list (bool * regi
              end
   end.
 
+(* the entry count of a page header is data: an entry takes at least 8 bytes, so a count beyond the payload
+   length cannot be decoded (the source reports InvalidMetaPage; before the repair of D19 it read past the
+   end of the page and panicked). The guard also keeps a garbage count out of the unary numbers. *)
+Definition decode_entries_z (cnt : Z) (payload : list Z) : option (list (bool * region)) :=
+  if Z.of_nat (length payload) <? cnt then None else decode_entries (Z.to_nat cnt) payload.
+
 (* readFreeList: (page ids of the chain, entries); fuel bounds the chain length (the source detects
    cycles; both answer "error" on a cyclic chain). None = error *)
 Fixpoint read_freelist (fuel : nat) (d : pdisk) (pid : Z) : option (list Z * list (bool * region)) :=
@@ -35,7 +41,7 @@ Fixpoint read_freelist (fuel : nat) (d : pdisk) (pid : Z) : option (list Z * lis
            match d pid with
            | None => None
            | Some pg =>
-               match decode_entries (Z.to_nat (lp_count pg)) (lp_payload pg) with
+               match decode_entries_z (lp_count pg) (lp_payload pg) with
                | None => None
                | Some es =>
                    match read_freelist f d (lp_next pg) with
@@ -58,6 +64,9 @@ Fixpoint decode_wal_entries (n : nat) (payload : list Z) : option (list (Z * Z))
            end
   end.
 
+Definition decode_wal_entries_z (cnt : Z) (payload : list Z) : option (list (Z * Z)) :=
+  if Z.of_nat (length payload) <? cnt then None else decode_wal_entries (Z.to_nat cnt) payload.
+
 Fixpoint read_wal (fuel : nat) (d : pdisk) (pid : Z) : option (list Z * list (Z * Z)) :=
   if pid =? 0 then Some ([], [])
   else match fuel with
@@ -66,7 +75,7 @@ Fixpoint read_wal (fuel : nat) (d : pdisk) (pid : Z) : option (list Z * list (Z 
            match d pid with
            | None => None
            | Some pg =>
-               match decode_wal_entries (Z.to_nat (lp_count pg)) (lp_payload pg) with
+               match decode_wal_entries_z (lp_count pg) (lp_payload pg) with
                | None => None
                | Some es =>
                    match read_wal f d (lp_next pg) with
